@@ -186,6 +186,84 @@ theorem own_trailers_clean (dec : Bytes → DetailsDec) (code : Nat) (msg : Byte
     have hne' : ¬ (code = 0) := by omega
     simp [hparse, hv, hr, hcode0, hne, hne', (hd d hdb).2, hw, detVals]
 
+/-! ## gRPC-Web trailer block: silent on every well-formed block, vocal on each malformation -/
+
+/-- Any block that follows the grammar `*( lower-case-token ":" OWS field-value OWS CRLF )`
+— not only the reference server's own — yields no feedback (all byte strings). -/
+theorem block_wellformed_clean (s : Bytes) (h : blockOK s = true) : (examineGRPCEndStream s).1 = [] :=
+  block_clean s h
+
+/-- Each malformation class the end-stream checks name is reported: a line ending that is not
+CRLF / a missing final CRLF, blank lines, a line without colon, an invalid (or empty) field
+name, an upper-case key, an invalid value byte, obsolete line folding. -/
+theorem block_malformation_flagged (s : Bytes) :
+    ∀ alts ∈ mustFlag s, ∃ f ∈ alts, f ∈ (examineGRPCEndStream s).1 :=
+  block_flags s
+
+/-- …in the form the correspondence check evaluates on the implementation's output. -/
+theorem block_spec (s : Bytes) : blockHolds s (examineGRPCEndStream s).1 = true := by
+  simp only [blockHolds, Bool.and_eq_true, Bool.or_eq_true, Bool.not_eq_true', List.all_eq_true,
+    List.any_eq_true, List.contains_iff_mem, List.isEmpty_iff]
+  refine ⟨?_, fun alts ha => ?_⟩
+  · cases hok : blockOK s with
+    | false => exact Or.inl rfl
+    | true => exact Or.inr (block_wellformed_clean s hok)
+  · obtain ⟨f, hf, hm⟩ := block_malformation_flagged s alts ha
+    exact ⟨f, hf, by simpa using hm⟩
+
+/-- the classes by name, for a line that is not the last one of the block -/
+theorem lf_line_ending_flagged (s : Bytes) (l : Bytes) (hl : l ∈ (splitLF s).dropLast)
+    (hcr : l.getLast? ≠ some 13) : EsFb.lfOnly ∈ (examineGRPCEndStream s).1 := by
+  have hn : 0 + (splitLF s).length = (splitLF s).length := by simp
+  have := loop_lf _ (splitLF s) {} 0 hn ⟨l, hl, by simpa [bne] using hcr⟩
+  simp [examineGRPCEndStream, esFinish, this]
+
+theorem missing_final_crlf_flagged (s : Bytes) (h : (splitLF s).getLast? ≠ some []) :
+    EsFb.noFinalCRLF ∈ (examineGRPCEndStream s).1 := by
+  have hn : 0 + (splitLF s).length = (splitLF s).length := by simp
+  have hne : (esLoop (splitLF s).length {} 0 (splitLF s)).endsInCRLF = false := by
+    cases he : (esLoop (splitLF s).length {} 0 (splitLF s)).endsInCRLF with
+    | false => rfl
+    | true => exact absurd (loop_ends _ (splitLF s) {} 0 hn rfl he) h
+  simp [examineGRPCEndStream, esFinish, hne]
+
+theorem line_malformations_flagged (s : Bytes) (l : Bytes) (hl : l ∈ terminatedLines s) :
+    (l = [] → EsFb.blankLines ∈ (examineGRPCEndStream s).1 ∨ EsFb.extraBlankAtEnd ∈ (examineGRPCEndStream s).1) ∧
+    (∀ k v, l ≠ [] → (l.head?.map isWS).getD false = false → splitColon l = (k, some v) →
+      (validFieldName k = false → EsFb.invalidName ∈ (examineGRPCEndStream s).1) ∧
+      (isASCII k = true → k.any isUpper = true → EsFb.nonLowerKey ∈ (examineGRPCEndStream s).1) ∧
+      (validFieldValue (trimWS v) = false → EsFb.invalidValue ∈ (examineGRPCEndStream s).1)) ∧
+    (∀ k, l ≠ [] → (l.head?.map isWS).getD false = false → splitColon l = (k, none) →
+      EsFb.missingColon ∈ (examineGRPCEndStream s).1) := by
+  have key : ∀ alts, alts ∈ mustFlagLine l → ∃ f ∈ alts, f ∈ (examineGRPCEndStream s).1 := fun alts ha =>
+    block_malformation_flagged s alts (by
+      simp only [mustFlag, List.mem_append, List.mem_flatMap]
+      exact Or.inr ⟨l, hl, ha⟩)
+  refine ⟨?_, ?_, ?_⟩
+  · intro he
+    obtain ⟨f, hf, hm⟩ := key [.blankLines, .extraBlankAtEnd] (by simp [mustFlagLine, he])
+    simp at hf
+    rcases hf with rfl | rfl
+    · exact Or.inl hm
+    · exact Or.inr hm
+  · intro k v hne hws hs
+    have he : l.isEmpty = false := by simpa using hne
+    refine ⟨?_, ?_, ?_⟩
+    · intro hv
+      have hv' : (!k.isEmpty && k.all isTchar) = false := by simpa [validFieldName] using hv
+      obtain ⟨f, hf, hm⟩ := key [.invalidName] (by simp [mustFlagLine, he, hws, hs, hv'])
+      simp at hf; subst hf; exact hm
+    · intro ha hu
+      obtain ⟨f, hf, hm⟩ := key [.nonLowerKey] (by simp [mustFlagLine, he, hws, hs, ha, hu])
+      simp at hf; subst hf; exact hm
+    · intro hv
+      obtain ⟨f, hf, hm⟩ := key [.invalidValue] (by simp [mustFlagLine, he, hws, hs, hv])
+      simp at hf; subst hf; exact hm
+  · intro k hne hws hs
+    have he : l.isEmpty = false := by simpa using hne
+    obtain ⟨f, hf, hm⟩ := key [.missingColon] (by simp [mustFlagLine, he, hws, hs])
+    simp at hf; subst hf; exact hm
+
 /-! ## gRPC status trailers: silent on well-formed, vocal on each malformation class -/
 
 /-- The validator of `checkGRPCStatus` accepts exactly the grammar of `grpc-message`
